@@ -211,7 +211,7 @@ func verifH_C20_refgraphs() {
 	verifReach("end")
 }
 
-//verif:harness id=C20 tier=quick,thorough witness=end,loaded steps=20000000 bounds="references at every schema keyword position (not, allOf, oneOf, anyOf, items, properties, additionalProperties) x 16 targets: self reference through the position, pure-reference cycle, dangling, and fragments that drill into arrays and maps at, beyond and below their bounds (allOf/0, /1 = length, /2, /-1, /x, required/0, enum/1, empty token, '#/', '#', a scalar's child) x external references allowed or not; load, validate, serialise, internalise, serialise: no panic"
+//verif:harness id=C20 tier=quick,thorough witness=end,loaded steps=20000000 bounds="references at every schema keyword position (not, allOf, oneOf, anyOf, items, properties, additionalProperties) x 18 targets: self reference through the position, pure-reference cycle, dangling, and fragments that drill into arrays and maps at, beyond and below their bounds (allOf/0, /1 = length, /2, /-1, /x, required/0, enum/1, empty token, '#/', '#', a scalar's child) x external references allowed or not; load, validate, serialise, internalise, serialise: no panic"
 func verifH_C20_schema_refs() {
 	pos := verifChoose("position", 7)
 	targets := []string{
@@ -231,6 +231,8 @@ func verifH_C20_schema_refs() {
 		"#",
 		"#/components/parameters/P/schema", // a valid drill through another kind
 		"#/components/schemas/L/properties/q/items",
+		"#/components/schemas/Y1/additionalProperties", // drills through a reference that is not resolved yet
+		"#/components/schemas/Y1/properties/p",
 	}
 	r := `{"$ref":"` + targets[verifChoose("target", len(targets))] + `"}`
 	var s string
@@ -253,6 +255,37 @@ func verifH_C20_schema_refs() {
 	text := `{"openapi":"3.0.0","info":{"title":"t","version":"1"},"paths":{"/p":{"get":{"operationId":"g","parameters":[{"$ref":"#/components/parameters/P"}],"responses":{"200":{"description":"d","content":{"application/json":{"schema":{"$ref":"#/components/schemas/S"}}}}}}}},` +
 		`"components":{"parameters":{"P":{"name":"q","in":"query","schema":{"type":"integer"}}},"schemas":{"S":` + s + `,"Y1":{"$ref":"#/components/schemas/Y2"},"Y2":{"$ref":"#/components/schemas/Y1"},` +
 		`"L":{"type":"object","allOf":[{"type":"object"}],"required":["q"],"enum":[{"q":[1]}],"properties":{"q":{"type":"array","items":{"type":"integer"}}}}}}}`
+	verifExercise([]byte(text), verifChoose("allowExternal", 2) == 1)
+	verifReach("end")
+}
+
+//verif:harness id=C20 tier=quick,thorough witness=end,loaded steps=20000000 depth=3000 bounds="structurally recursive documents: an untyped schema that contains itself (through properties / items / additionalProperties / allOf / not) with a default, an example or an enum; a callback whose operation uses the same callback again; a path item / operation reached through nested callbacks two levels deep; load, validate, serialise, internalise, serialise: no panic and no unbounded recursion"
+func verifH_C20_recursive() {
+	var comps string
+	shape := verifChoose("shape", 8)
+	// known findings, identified by the input: unbounded recursion through a self-containing
+	// untyped schema with a value to check, and through a callback that uses itself
+	verifKnown("C20-recursive-schema-unbounded-recursion", shape <= 5)
+	verifKnown("C20-internalize-recursive-callback", shape >= 6)
+	switch shape {
+	case 0:
+		comps = `"schemas":{"Z":{"properties":{"x":{"$ref":"#/components/schemas/Z"}},"default":{}}}`
+	case 1:
+		comps = `"schemas":{"Z":{"items":{"$ref":"#/components/schemas/Z"},"example":[]}}`
+	case 2:
+		comps = `"schemas":{"Z":{"additionalProperties":{"$ref":"#/components/schemas/Z"},"enum":[{}]}}`
+	case 3:
+		comps = `"schemas":{"Z":{"allOf":[{"$ref":"#/components/schemas/Z"}],"default":1}}`
+	case 4:
+		comps = `"schemas":{"Z":{"not":{"$ref":"#/components/schemas/Z"},"default":1}}`
+	case 5:
+		comps = `"schemas":{"Z":{"type":"object","properties":{"x":{"$ref":"#/components/schemas/Z"}},"default":{"x":{"x":{}}}}}`
+	case 6:
+		comps = `"callbacks":{"CB":{"{$request.body#/u}":{"post":{"responses":{"200":{"description":"d"}},"callbacks":{"again":{"$ref":"#/components/callbacks/CB"}}}}}}`
+	case 7:
+		comps = `"callbacks":{"CB":{"{$request.body#/u}":{"post":{"responses":{"200":{"description":"d"}},"callbacks":{"in":{"{$request.body#/v}":{"post":{"responses":{"200":{"description":"d"}},"callbacks":{"again":{"$ref":"#/components/callbacks/CB"}}}}}}}}}}`
+	}
+	text := `{"openapi":"3.0.0","info":{"title":"t","version":"1"},"paths":{},"components":{` + comps + `}}`
 	verifExercise([]byte(text), verifChoose("allowExternal", 2) == 1)
 	verifReach("end")
 }
